@@ -129,12 +129,30 @@ def _worker(args):
     agg = prop.new_agg()
     viols = []
     harness = []
+    import signal
+
+    class _RunTimeout(Exception):
+        pass
+
+    def _on_alarm(signum, frame):
+        raise _RunTimeout()
+
+    signal.signal(signal.SIGALRM, _on_alarm)
+    per_run = int(os.environ.get("SIMLDAP_RUN_TIMEOUT", "180"))
     for idx in range(start, start + count):
         seed = derive_seed(base, prop_id, tier, idx)
         rng = random.Random(seed)
         try:
             prop.begin_run(idx, seed)
-            r = execute(prop, None, rng=rng, max_steps=steps)
+            signal.alarm(per_run)
+            try:
+                r = execute(prop, None, rng=rng, max_steps=steps)
+            finally:
+                signal.alarm(0)
+        except _RunTimeout:
+            harness.append({"idx": idx, "seed": seed, "err": "run exceeded %d s of wall clock (step caps do not bound a call that never "
+                            "returns): reported as a harness error, not as a verdict" % per_run})
+            break
         except HarnessError as e:
             harness.append({"idx": idx, "seed": seed, "err": "HarnessError: %s" % e})
             continue
